@@ -92,12 +92,31 @@ func (h *c18Handler) size() int {
 	return len(h.log)
 }
 
+// c18SlowHandler blocks inside the first callback it receives until released.
+type c18SlowHandler struct {
+	*c18Handler
+	once    sync.Once
+	entered chan struct{}
+	release chan struct{}
+}
+
+func (h *c18SlowHandler) block() {
+	h.once.Do(func() {
+		close(h.entered)
+		<-h.release
+	})
+}
+func (h *c18SlowHandler) OnAdd(obj interface{}, b bool) { h.block(); h.c18Handler.OnAdd(obj, b) }
+func (h *c18SlowHandler) OnUpdate(o, cur interface{})   { h.block(); h.c18Handler.OnUpdate(o, cur) }
+func (h *c18SlowHandler) OnDelete(obj interface{})      { h.block(); h.c18Handler.OnDelete(obj) }
+
 type c18Sub struct {
 	ri       *ResourceInformer
 	handlers []*c18Handler
 }
 
 type c18World struct {
+	rm      *dynamicdiscovery.ResourceMap
 	sim     *vs.Server
 	factory *SharedInformerFactory
 	subs    map[string]*c18Sub // key "sub/resource", open subscriptions only
@@ -118,7 +137,7 @@ func newC18World() (*c18World, error) {
 	if err != nil {
 		return nil, err
 	}
-	return &c18World{sim: sim, factory: NewSharedInformerFactory(cs, 10*time.Minute), subs: map[string]*c18Sub{}}, nil
+	return &c18World{rm: rm, sim: sim, factory: NewSharedInformerFactory(cs, 10*time.Minute), subs: map[string]*c18Sub{}}, nil
 }
 
 func (w *c18World) def(res string) *vs.ResourceDef { return w.sim.Def(res) }
@@ -236,6 +255,15 @@ func propC18(c *vs.Case, nSubs, nRes, length int) error {
 	sawReopen, closedToZero := false, map[string]bool{}
 	sawIsolation := false
 	hid := 0
+	// one resource may be unknown to discovery at first (its CRD gets installed later)
+	hidden := map[string]bool{}
+	if c.Bool() {
+		res := c18Resources[c.Int(nRes)]
+		hidden[res] = true
+		w.sim.SetHidden(res, true)
+		w.rm.VerifRefresh()
+		log = append(log, res+" is not known to discovery yet")
+	}
 	for step := 0; step < length; step++ {
 		type op struct {
 			name string
@@ -248,6 +276,17 @@ func propC18(c *vs.Case, nSubs, nRes, length int) error {
 				key := fmt.Sprintf("s%d/%s", s, res)
 				sub := w.subs[key]
 				d := w.def(res)
+				if sub == nil && hidden[res] {
+					ops = append(ops, op{"subscribe (resource unknown) " + key, func() error {
+						if ri, err := w.factory.Resource(d.APIVersion(), res); err == nil {
+							ri.Close()
+							return fmt.Errorf("harness: subscribing to a resource unknown to discovery succeeded")
+						}
+						c.Class("failed-subscribe")
+						return nil
+					}})
+					continue
+				}
 				if sub == nil {
 					ops = append(ops, op{"subscribe " + key, func() error {
 						lists := w.sim.ListCallCount(res)
@@ -301,6 +340,45 @@ func propC18(c *vs.Case, nSubs, nRes, length int) error {
 						return nil
 					}})
 				}
+				ops = append(ops, op{"add-slow-handler+outside-create " + key, func() error {
+					// the handler is still busy with its replay when a new object appears
+					hid++
+					h := &c18SlowHandler{c18Handler: &c18Handler{id: fmt.Sprintf("h%d:%s@%s", hid, key, res)}, entered: make(chan struct{}), release: make(chan struct{})}
+					done := make(chan struct{})
+					go func() {
+						defer close(done)
+						sub.ri.Informer().AddEventHandler(h)
+					}()
+					inReplay := false
+					select {
+					case <-h.entered:
+						inReplay = true
+					case <-done:
+					case <-time.After(5 * time.Second):
+					}
+					name := fmt.Sprintf("late%d", step)
+					w.sim.ExtCreate(res, map[string]any{"metadata": map[string]any{"name": name, "namespace": "ns1"}})
+					// the watch event reaches the shared informer while the replay is still in progress
+					poll(2*time.Second, func() bool {
+						_, err := sub.ri.Lister().Namespace("ns1").Get(name)
+						return err == nil
+					})
+					time.Sleep(2 * time.Millisecond)
+					close(h.release)
+					select {
+					case <-done:
+					case <-time.After(10 * time.Second):
+						return vs.Violf("C18/deadlock", "AddEventHandler did not return within 10 s")
+					}
+					sub.handlers = append(sub.handlers, h.c18Handler)
+					if inReplay {
+						c.Class("object-created-during-handler-replay")
+					}
+					if !poll(5*time.Second, func() bool { return h.has(name, "") }) {
+						return vs.Violf("C18/event-not-delivered", "handler %s was being added (replaying the cache) when %s was created; it received it neither in the replay nor as an event", h.id, name)
+					}
+					return nil
+				}})
 				if len(sub.handlers) > 0 {
 					ops = append(ops, op{"remove-handlers " + key, func() error {
 						sub.ri.Informer().RemoveEventHandlers()
@@ -338,6 +416,17 @@ func propC18(c *vs.Case, nSubs, nRes, length int) error {
 					} else {
 						sawIsolation = true
 					}
+					return nil
+				}})
+			}
+		}
+		for _, res := range c18Resources[:nRes] {
+			res := res
+			if hidden[res] {
+				ops = append(ops, op{"CRD of " + res + " gets installed", func() error {
+					w.sim.SetHidden(res, false)
+					w.rm.VerifRefresh()
+					delete(hidden, res)
 					return nil
 				}})
 			}
